@@ -128,6 +128,16 @@ func genC03(t *rapid.T) c03Case {
 		c.W.Ents = append(c.W.Ents, e)
 	}
 	c.Profile = genAcceptingProfile(t, c.W.Ents[0].Subject, "p")
+	// the profile may also contribute a validity period and extensions (merging must leave subject, serial and unique ids alone)
+	if rapid.Bool().Draw(t, "profile-validity") {
+		c.Profile.Validity = &core.Validity{Duration: rapid.SampledFrom([]string{"2y", "90d", "1y6m"}).Draw(t, "profile-duration")}
+	}
+	if rapid.Bool().Draw(t, "profile-extension") {
+		c.Profile.Extensions = []core.Extension{{Kind: core.KCUSTOM, OID: "1.2.3.4.5", Raw: core.Bin([]byte{5, 0})}}
+		if rapid.Bool().Draw(t, "profile-extension2") {
+			c.Profile.Extensions = append(c.Profile.Extensions, core.Extension{Kind: core.KKU, HasContent: true, KU: []string{"digitalSignature"}})
+		}
+	}
 	return c
 }
 
